@@ -118,6 +118,19 @@ def check_bank(mtjs, order=None):
                 grammar.binarize(g, reordering=grammar.reordering_optimal)
                 grammar.binarize(g, markov_opts={'v': 1, 'h': 1})
                 grammar.binarize(g, markov_opts={'v': 2, 'h': 1, 'nofanout': True})
+                # ... and it is written out in every format and analysed (files dropped)
+                import os
+                from trees import grammaroutput
+                dest = os.path.join(scratch(), 'snap%d' % os.getpid())
+                for fmt in ('pmcfg', 'rcg', 'lopar'):
+                    try:
+                        getattr(grammaroutput, fmt)(g, lex, dest, 'utf-8')
+                    except Exception:
+                        pass        # the LoPar writer refuses grammars with fan-out > 1; the writers are C09's business
+                for ext in ('pmcfg', 'rcg', 'lex', 'gram', 'start', 'oc', 'OC'):
+                    if os.path.exists(dest + '.' + ext):
+                        os.unlink(dest + '.' + ext)
+                grammaranalysis.is_contextfree(g)
             grammar.extract(build(mts[-1]), g, lex)
             mts = mts + [mts[-1]]
         else:
